@@ -130,6 +130,9 @@ fn shard(ctx: &Ctx, rep: &mut Report) {
 		let variant = ctx.shard as u64 + i * ctx.nshards as u64;
 		// C09: only the index-growth layout (kind 5); the flavour still walks all four values
 		let variant = if mode == Mode::C09 { (variant & !7) | 5 } else { variant };
+		// C16: the index-growth layout (files created and dropped by the pipeline: the richest
+		// set of fallible file operations) every fourth case instead of every eighth
+		let variant = if mode == Mode::C16 && i % 3 == 1 { (variant & !7) | 5 } else { variant };
 		run_case(ctx, rep, mode, case_seed, variant, None);
 		rep.cases += 1;
 		ctx.checkpoint(rep);
@@ -283,6 +286,33 @@ fn crash_targets(ctx: &Ctx, rep: &mut Report, mode: Mode, rec: &Recorded, work: 
 				_ => false,
 			}
 	};
+	// a record that grew an index by several steps (the reindex queue gained >= 2 tables inside
+	// one process_commits) is being applied: index files are created one after the other, each
+	// boundary in between is a distinct "which tables exist" state. Always taken, swept densely.
+	let idx_of = |i: usize| -> u32 { rec.shape_before[i].rsplit('i').next().and_then(|s| s.chars().next()).and_then(|c| c.to_digit(10)).unwrap_or(0) };
+	let mut multi_growth_enacts: Vec<usize> = vec![];
+	for i in 0..rec.acts.len().saturating_sub(1) {
+		let grows = matches!(&rec.acts[i], Act::Step(Step::ProcessCommits) | Act::Nested(Step::ProcessCommits, _)) && idx_of(i + 1) >= idx_of(i) + 2;
+		if grows {
+			let mut found = 0;
+			for j in i + 1..rec.acts.len().min(i + 16) {
+				let enact = match &rec.acts[j] {
+					Act::Step(Step::EnactOne) | Act::Step(Step::EnactAll) => true,
+					Act::Nested(Step::EnactOne, _) | Act::Nested(Step::EnactAll, _) => true,
+					Act::Nested(_, n) => n.inner.contains(&Step::EnactOne) || n.inner.contains(&Step::EnactAll),
+					_ => false,
+				};
+				if enact {
+					multi_growth_enacts.push(j);
+					found += 1;
+					if found >= 2 {
+						break
+					}
+				}
+			}
+		}
+	}
+	let is_growth_enact = |t: &(usize, &'static str)| -> bool { t.1 == "step" && multi_growth_enacts.contains(&t.0) };
 	let max_targets = ctx.tier.pick(14, 10_000);
 	// the handle goes away while the log being appended to holds unsynced records and an older
 	// record is still waiting in another (possibly higher-numbered) file: recovery must cope
@@ -290,10 +320,10 @@ fn crash_targets(ctx: &Ctx, rep: &mut Report, mode: Mode, rec: &Recorded, work: 
 		t.1 == "open" && matches!(rec.acts[t.0], Act::Restart) && rec.shape_before[t.0].contains("a1") && !rec.shape_before[t.0].contains("r0")
 	};
 	if targets.len() > max_targets {
-		let (mut keep, mut rest): (Vec<_>, Vec<_>) = targets.into_iter().partition(|t| is_reclaim(t) || is_busy_restart(t));
+		let (mut keep, mut rest): (Vec<_>, Vec<_>) = targets.into_iter().partition(|t| is_reclaim(t) || is_busy_restart(t) || is_growth_enact(t));
 		rng.shuffle(&mut keep);
-		keep.sort_by_key(|t| !is_busy_restart(t));
-		keep.truncate(5);
+		keep.sort_by_key(|t| (!is_busy_restart(t), !is_growth_enact(t)));
+		keep.truncate(6);
 		rng.shuffle(&mut rest);
 		rest.truncate(max_targets.saturating_sub(keep.len()));
 		keep.extend(rest);
@@ -308,9 +338,18 @@ fn crash_targets(ctx: &Ctx, rep: &mut Report, mode: Mode, rec: &Recorded, work: 
 			one_target(ctx, rep, mode, rec, work, rng, desc, case_seed, variant, act, phase, 0);
 			continue
 		}
-		let ks = if is_reclaim(&(act, phase)) { (0..60).collect() } else { k_samples(rng, ctx.tier) };
+		let ks = if is_reclaim(&(act, phase)) {
+			(0..60).collect()
+		} else if is_growth_enact(&(act, phase)) && ctx.tier == Tier::Quick {
+			(0..90).collect()
+		} else {
+			k_samples(rng, ctx.tier)
+		};
 		if is_reclaim(&(act, phase)) {
 			rep.count("dense_sweeps_of_log_reclaim", 1);
+		}
+		if is_growth_enact(&(act, phase)) {
+			rep.count("dense_sweeps_of_multi_growth_enact", 1);
 		}
 		let mut last_open = None; // largest sampled k that was a real boundary
 		let mut first_done = None; // smallest sampled k beyond the last boundary
